@@ -3,6 +3,7 @@ package symterp
 import (
 	"fmt"
 	"go/token"
+	"strings"
 )
 
 // sync.Map model: an association list per Map value (keys compared with Go interface
@@ -182,8 +183,12 @@ func atomicPointerExternal(name string) externalFn {
 	if len(name) < len(pre) || name[:len(pre)] != pre {
 		return nil
 	}
+	method := name[strings.Index(name, "]).")+3:] // e.g. Load[map[string][]int] for the instantiated method
+	if k := strings.IndexByte(method, '['); k >= 0 {
+		method = method[:k]
+	}
 	switch {
-	case hasSuffix(name, ".Load"):
+	case method == "Load":
 		return func(fr *frame, a []value) value {
 			c := cur.atomOf(a[0].(*value))
 			if *c == nil {
@@ -191,7 +196,7 @@ func atomicPointerExternal(name string) externalFn {
 			}
 			return *c
 		}
-	case hasSuffix(name, ".Store"):
+	case method == "Store":
 		return func(fr *frame, a []value) value {
 			p := a[0].(*value)
 			if cur.freezeOn && cur.frozen[p] {
@@ -200,7 +205,7 @@ func atomicPointerExternal(name string) externalFn {
 			*cur.atomOf(p) = a[1]
 			return nil
 		}
-	case hasSuffix(name, ".CompareAndSwap"):
+	case method == "CompareAndSwap":
 		return func(fr *frame, a []value) value {
 			c := cur.atomOf(a[0].(*value))
 			curV := *c
@@ -213,7 +218,7 @@ func atomicPointerExternal(name string) externalFn {
 			}
 			return false
 		}
-	case hasSuffix(name, ".Swap"):
+	case method == "Swap":
 		return func(fr *frame, a []value) value {
 			c := cur.atomOf(a[0].(*value))
 			old := *c
